@@ -13,6 +13,14 @@ Oracle: independent of the Lean model.  If the real code reports degree d, the (
         expression (a non-polynomial node, a non-integer power, a division by a non-constant …)
         although a finite degree was reported, the difference is taken numerically through
         `oracle.ref_eval` with a scale-aware tolerance: a non-polynomial function fails it.
+Parameters × histories (oracle only): Parameters (scalar, VectorParameter elements) as exponent / coefficient /
+        divisor / base / additive term of the classified expression, shallow, inside vector nodes and in deep
+        chains; the expression is classified through every channel (`.degree`, `is_linear()`, `is_linear`,
+        `is_quadratic`, `compute_degree`, the iterative traversal, one Problem object kept over the history as
+        objective / as constraint, a fresh Problem, the sub-nodes first), then `Parameter.set` (larger integer,
+        non-integer, negative, 0, 1, tiny, huge, back to the old value, every numeric type), then the SAME object
+        and a freshly built one are classified again: every finite claim is judged by the same finite-difference
+        oracle with the CURRENT parameter values substituted.
 """
 from __future__ import annotations
 
@@ -50,7 +58,9 @@ ASSUMPTIONS = [
     "(ℝ totalises it to 0, NumPy gives inf/nan); float rounding is not modelled",
     "scalar constants only: array-valued Constant nodes (incl. 0-d arrays made from NumPy integer scalars) are outside "
     "the Lean syntax; the real code classifies powers with such exponents as non-polynomial (conservative)",
-    "expression trees are immutable after construction (the per-node _degree cache is never invalidated by the code)",
+    "expression trees are immutable after construction (the per-node _degree cache is never invalidated by the code); "
+    "the one mutable input, the value of a Parameter, is covered on the real code only (parameter × history family: a "
+    "classification that depends on a parameter's value must still hold after Parameter.set)",
     "lru_cache of _compute_degree_cached is a transparent memo (keyed by the object itself) and is not modelled",
 ]
 
@@ -91,6 +101,7 @@ def frac_eval(e, vals):
     """value of optyx expression object `e` in exact rational arithmetic for the polynomial
     fragment; NotPoly for everything else.  Independent of optyx's own evaluate/degree code."""
     from optyx.core.expressions import BinaryOp, Constant, UnaryOp, Variable
+    from optyx.core.parameters import Parameter
     from optyx.core import vectors as V
     from optyx.core import matrices as M
 
@@ -101,7 +112,14 @@ def frac_eval(e, vals):
             return [frac_eval(x, vals) for x in v._expressions]
         raise NotPoly("vector operand")
 
+    def fixed(n):
+        """a number as far as the variables are concerned: a Constant, a Parameter (its CURRENT value), or a
+        compound without variables"""
+        return isinstance(n, (Constant, Parameter)) or (isinstance(n, (BinaryOp, UnaryOp)) and not var_names(n))
+
     def num(x):
+        if isinstance(x, Fraction):
+            return x
         if isinstance(x, np.ndarray):
             if x.ndim != 0:
                 raise NotPoly("array constant")
@@ -136,15 +154,15 @@ def frac_eval(e, vals):
             elif n.op == "-": out.append(l - r)
             elif n.op == "*": out.append(l * r)
             elif n.op == "/":
-                if not isinstance(n.right, Constant):
+                if not fixed(n.right):
                     raise NotPoly("division by a non-constant")
                 if r == 0:
                     raise DivZero()
                 out.append(l / r)
             elif n.op == "**":
-                if not isinstance(n.right, Constant):
+                if not fixed(n.right):
                     raise NotPoly("non-constant exponent")
-                out.append(l ** int_power(n.right.value))
+                out.append(l ** int_power(n.right.value if isinstance(n.right, Constant) else r))
             else:
                 raise NotPoly("operator")
         elif isinstance(n, UnaryOp):
@@ -158,6 +176,8 @@ def frac_eval(e, vals):
             out.append(num(n.value))
         elif isinstance(n, Variable):
             out.append(vals[n.name])
+        elif isinstance(n, Parameter):
+            out.append(num(n.value))    # the value the parameter holds NOW
         elif isinstance(n, V.LinearCombination):
             xs = vec(n.vector)
             out.append(sum((num(c) * x for c, x in zip(np.asarray(n.coefficients).tolist(), xs)), Fraction(0)))
@@ -239,6 +259,16 @@ def float_eval(e, vals, cmap=None):
             return [fun(v.op, a) for a in vec(v.vector)]
         raise NoValue("vector operand")
 
+    def pval(n, raw=False):
+        """CURRENT value of a scalar Parameter"""
+        a = np.asarray(n.value)
+        if a.ndim != 0:
+            raise NoValue("array-valued parameter")
+        x = float(a)
+        if not math.isfinite(x):
+            raise NoValue("non-finite parameter value")
+        return x if raw else cm(x)
+
     def fun(op, a):
         try:
             return -a if op == "neg" else _FUN[op](a)
@@ -271,7 +301,10 @@ def float_eval(e, vals, cmap=None):
                 if abs(r) < 1e-9:
                     raise NoValue("division")
                 out.append(l / r)
-            elif n.op == "**": out.append(power(l, r))
+            elif n.op == "**":
+                # a Parameter standing as the exponent keeps its value as it is (normalising the magnitude of an
+                # exponent would change the function class)
+                out.append(power(l, pval(n.right, raw=True) if isinstance(n.right, Parameter) else r))
             else: raise NoValue("operator")
         elif isinstance(n, UnaryOp):
             if ph == 0:
@@ -283,7 +316,7 @@ def float_eval(e, vals, cmap=None):
         elif isinstance(n, Variable):
             out.append(vals[n.name])
         elif isinstance(n, Parameter):
-            out.append(float(np.asarray(n.value)))
+            out.append(pval(n))
         elif isinstance(n, V.LinearCombination):
             out.append(sum(num(c) * x for c, x in zip(np.asarray(n.coefficients).tolist(), vec(n.vector))))
         elif isinstance(n, V.VectorSum):
@@ -415,6 +448,27 @@ def numeric_degree_oracle(e, d, rng, why):
             return {"what": f"reported degree {d} for a function that is not a polynomial of degree ≤ {d}{label} "
                             f"(non-polynomial node: {why}); {bad} numeric finite differences are non-zero",
                     "mode": "numeric" + ("-normalised" if cmap else "")}
+    if tried == 0:
+        # the function has no value along any of these lines (a non-integer / negative power, a logarithm … of a
+        # quantity that changes sign): lines inside the positive orthant
+        for label, cmap in (("", None), (" after normalising the magnitudes of its non-zero coefficients", tame)):
+            bad = 0
+            for _ in range(6):
+                base = {n: 0.5 + rng.randint(0, 12) / 8 for n in names}
+                dirn = {n: rng.choice([1.0, 0.5, 0.25, 0.75]) for n in names}
+                pts = [{n: base[n] + j * 0.5 * dirn[n] for n in names} for j in range(d + 2)]
+                try:
+                    vals = [float_eval(e, pt, cmap) for pt in pts]
+                except NoValue:
+                    continue
+                tried += 1
+                scale = max(1.0, max(abs(v) for v in vals)) * (2 ** (d + 1))
+                if abs(binom_diff(vals)) > 1e-7 * scale:
+                    bad += 1
+            if bad:
+                return {"what": f"reported degree {d} for a function that is not a polynomial of degree ≤ {d}{label} "
+                                f"(non-polynomial node: {why}); {bad} numeric finite differences along lines in the "
+                                f"positive orthant are non-zero", "mode": "numeric-positive" + ("-normalised" if cmap else "")}
     if tried == 0:
         return "skip:non-polynomial node, no regular sample point"
     return None
@@ -1074,6 +1128,450 @@ def rand_poly(rng, U, depth):
     return BinaryOp(l, rand_poly(rng, U, depth - 1), op)
 
 
+# ----------------------------------------------------------------------------- parameters × histories
+
+
+# the values a Parameter takes over a history, by the role it plays in the expression
+PARAM_POOL = {
+    # as an exponent: small / larger non-negative integers, non-integers, negatives, 0 and 1, tiny
+    "exp": [0, 1, 2, 3, 4, 5, 7, 0.5, 1.5, 2.5, -1, -2, -0.5, 1e-9, 1.0, 2.0],
+    # as a coefficient / divisor / base / additive term: exact zero, ±1, ordinary, tiny, huge, sign flips
+    "coef": [0, 1, -1, 2, 2.5, -3, 0.25, 1e-9, -1e-12, 1e8, -0.0, 3],
+}
+PARAM_INIT = {"exp": [1, 2, 0, 3], "coef": [0, 1, 2.5, -1]}
+PARAM_KEYS = ("p", "q", "vp0", "vp1", "vp2")
+
+# how a classification can be asked for first at a step of a history ("none": the value is only set)
+PARAM_CHANNELS = ["degree", "is_linear()", "A.is_linear", "A.is_quadratic", "A.compute_degree", "A._compute_degree_iterative",
+                  "problem-objective", "problem-constraint", "fresh-problem", "sub-nodes", "none"]
+
+_PTYPES = {
+    "int": lambda v: int(v), "float": lambda v: float(v), "float64": lambda v: np.float64(v), "0d": lambda v: np.array(float(v)),
+    "int64": lambda v: np.int64(v), "float32": lambda v: np.float32(v), "int8": lambda v: np.int8(v),
+}
+
+
+def typed_value(rng, v):
+    """(type name, plain float) — the numeric TYPE in which the value is handed to Parameter(...) / .set(...)"""
+    v = float(v)
+    names = ["float", "float", "float", "float64", "0d"]
+    if v.is_integer() and abs(v) < 100 and not (v == 0 and math.copysign(1.0, v) < 0):
+        names += ["int", "int", "int", "int64", "int8"]
+    if float(np.float32(v)) == v:
+        names.append("float32")
+    return [rng.choice(names), v]
+
+
+class ParamSet:
+    """fresh Parameter objects p, q and a VectorParameter vp (3 elements) holding the given typed values"""
+
+    def __init__(self, values):
+        from optyx import Parameter, VectorParameter
+
+        mk = lambda tv: _PTYPES[tv[0]](tv[1])
+        self.p = Parameter("p", mk(values["p"]))
+        self.q = Parameter("q", mk(values["q"]))
+        self.vp = VectorParameter("vp", 3, [values[f"vp{i}"][1] for i in range(3)])
+        for i in range(3):   # the constructor stores 0-d arrays; a plain number arrives through the element's set()
+            if values[f"vp{i}"][0] != "0d":
+                self.vp[i].set(mk(values[f"vp{i}"]))
+
+    def apply(self, sets, whole_vector=False):
+        mk = lambda tv: _PTYPES[tv[0]](tv[1])
+        vkeys = [k for k in sets if k.startswith("vp")]
+        if whole_vector and vkeys:
+            cur = [float(np.asarray(self.vp[i].value)) for i in range(3)]
+            for k in vkeys:
+                cur[int(k[2])] = sets[k][1]
+            self.vp.set(cur)
+        for k, tv in sets.items():
+            if k == "p":
+                self.p.set(mk(tv))
+            elif k == "q":
+                self.q.set(mk(tv))
+            elif not whole_vector:
+                self.vp[int(k[2])].set(mk(tv))
+
+    def now(self):
+        out = {"p": self.p.value, "q": self.q.value}
+        out.update({f"vp{i}": self.vp[i].value for i in range(3)})
+        return {k: float(np.asarray(v)) for k, v in out.items()}
+
+
+def param_forms(U):
+    """(name, {parameter key: role}, build(P)) — Parameters in every position of the classified expression:
+    exponent (bare, compound, of compound bases, nested powers, inside vector / matrix nodes, at the far end of
+    deep chains, shared objects), coefficient / divisor (both operand orders, over linear / high-degree /
+    non-polynomial terms, inside vector nodes), base, additive term; scalar Parameters and VectorParameter elements.
+    Deterministic given U."""
+    from optyx.core.expressions import BinaryOp, Constant, UnaryOp
+    from optyx.core import vectors as V
+    from optyx.core import matrices as M
+    from optyx.core.functions import sin, exp
+
+    x, y = U.scalars[0], U.scalars[1]
+    X, Y = U.x, U.y
+    n = U.n
+    c3 = np.array(([2.0, -1.0, 0.5] * n)[:n])
+    Q = np.array([[(i + 1.0) * (j - 1.0) + (0.5 if i == j else 0.0) for j in range(n)] for i in range(n)])
+    A = np.array([[(i + 1.0) - 0.5 * j for j in range(n)] for i in range(n)])
+    E, C = "exp", "coef"
+
+    def ve(first):
+        return V.VectorExpression(([first, y, x * 2.0 + 1.0] * n)[:n])
+
+    def shared(t, f):
+        return f(t)
+
+    def chain(leaf, d, right=False, late=False):
+        e = leaf if not late else x
+        for i in range(d):
+            t = Constant(float(i % 3)) if i % 2 else y
+            e = BinaryOp(t, e, "+") if right else BinaryOp(e, t, "+" if i % 3 else "-")
+        return BinaryOp(e, leaf, "+") if late else e
+
+    F = [
+        # ---- exponent
+        ("exp:x**p", {"p": E}, lambda P: x ** P.p),
+        ("exp:(x+y)**p", {"p": E}, lambda P: (x + y) ** P.p),
+        ("exp:3*x**p+2*y-1", {"p": E}, lambda P: 3 * x ** P.p + 2 * y - 1),
+        ("exp:(x+y)**p+4*y", {"p": E}, lambda P: (x + y) ** P.p + 4 * y),
+        ("exp:(x**p)**2", {"p": E}, lambda P: (x ** P.p) ** 2),
+        ("exp:(x**2)**p", {"p": E}, lambda P: (x ** 2) ** P.p),
+        ("exp:(x**p)**q", {"p": E, "q": E}, lambda P: (x ** P.p) ** P.q),
+        ("exp:2*x**p", {"p": E}, lambda P: 2.0 * x ** P.p),
+        ("exp:x**p*2", {"p": E}, lambda P: x ** P.p * 2.0),
+        ("exp:-(x**p)", {"p": E}, lambda P: -(x ** P.p)),
+        ("exp:x**p/4", {"p": E}, lambda P: x ** P.p / 4.0),
+        ("exp:1-x**p", {"p": E}, lambda P: 1.0 - x ** P.p),
+        ("exp:t-t", {"p": E}, lambda P: shared(x ** P.p, lambda t: t - t)),
+        ("exp:t+t*2", {"p": E}, lambda P: shared(x ** P.p, lambda t: t + t * 2.0)),
+        ("exp:x**p+y**q", {"p": E, "q": E}, lambda P: x ** P.p + y ** P.q),
+        ("exp:x**p+y**p", {"p": E}, lambda P: x ** P.p + y ** P.p),
+        ("exp:x**vp0+y**vp1", {"vp0": E, "vp1": E}, lambda P: x ** P.vp[0] + y ** P.vp[1]),
+        ("exp:(2x+1)**vp2", {"vp2": E}, lambda P: (2.0 * x + 1.0) ** P.vp[2]),
+        ("exp:x**(p+1)", {"p": E}, lambda P: x ** (P.p + 1)),
+        ("exp:x**(2*p)", {"p": E}, lambda P: x ** (2 * P.p)),
+        ("exp:x**(-p)", {"p": E}, lambda P: x ** (-P.p)),
+        ("exp:x**(p*q)", {"p": E, "q": E}, lambda P: x ** (P.p * P.q)),
+        ("exp:x**(p/2)", {"p": E}, lambda P: x ** (P.p / 2)),
+        ("exp:2**p*x", {"p": E}, lambda P: Constant(2.0) ** P.p * x),
+        ("exp:x**p*y", {"p": E}, lambda P: x ** P.p * y),
+        ("exp:x*x**p", {"p": E}, lambda P: x * x ** P.p),
+        ("exp:x/x**p", {"p": E}, lambda P: x / x ** P.p),
+        ("exp:sin(x)**p", {"p": E}, lambda P: sin(x) ** P.p),
+        ("exp:(x*y)**p", {"p": E}, lambda P: (x * y) ** P.p),
+        ("exp:x.x**p", {"p": E}, lambda P: V.DotProduct(X, Y) ** P.p),
+        ("exp:LC[x**p]", {"p": E}, lambda P: V.LinearCombination(c3, ve(x ** P.p))),
+        ("exp:c@ve[x**p]", {"p": E}, lambda P: c3 @ ve(x ** P.p)),
+        ("exp:ve[x**p].sum()", {"p": E}, lambda P: ve(x ** P.p).sum()),
+        ("exp:VectorSum[x**p]", {"p": E}, lambda P: V.VectorSum(ve(x ** P.p))),
+        ("exp:dot(ve[x**p],Y)", {"p": E}, lambda P: V.DotProduct(ve(x ** P.p), Y)),
+        ("exp:dot(Y,ve[x**p])", {"p": E}, lambda P: V.DotProduct(Y, ve(x ** P.p))),
+        ("exp:QF(ve[x**p])", {"p": E}, lambda P: M.QuadraticForm(ve(x ** P.p), Q)),
+        ("exp:(A@ve[x**p])[0]", {"p": E}, lambda P: M.matmul(A, ve(x ** P.p))[0]),
+        ("exp:c@(A@ve[x**p])", {"p": E}, lambda P: c3 @ M.matmul(A, ve(x ** P.p))),
+        ("exp:sum X[i]**vp[i]", {"vp0": E, "vp1": E, "vp2": E}, lambda P: V.VectorExpression([X[i] ** P.vp[i] for i in range(min(3, n))]).sum()),
+        ("exp:(X**2 elementwise)**p", {"p": E}, lambda P: V.VectorExpression([v ** P.p for v in (X - 1.0)]).sum()),
+        ("exp:2*LC[x**p]+x", {"p": E}, lambda P: 2.0 * V.LinearCombination(c3, ve(x ** P.p)) + x),
+        ("exp:mse", {"p": E}, lambda P: M.MatrixSum(M.MatrixExpression([[x ** P.p, y], [x, y * 2.0]]))),
+        # ---- exponent × depth (the explicit-stack traversal and the per-node slots of a deep tree)
+        ("expdeep:L399", {"p": E}, lambda P: chain(x ** P.p, 399)),
+        ("expdeep:L401", {"p": E}, lambda P: chain(x ** P.p, 401)),
+        ("expdeep:L450", {"p": E}, lambda P: chain(x ** P.p, 450)),
+        ("expdeep:R450", {"p": E}, lambda P: chain(x ** P.p, 450, right=True)),
+        ("expdeep:late450", {"p": E}, lambda P: chain(x ** P.p, 450, late=True)),
+        ("expdeep:L450:(x+y)**vp1", {"vp1": E}, lambda P: chain((x + y) ** P.vp[1], 450)),
+        ("expdeep:L450:LC[x**p]", {"p": E}, lambda P: chain(V.LinearCombination(c3, ve(x ** P.p)), 450)),
+        # ---- coefficient / divisor
+        ("coef:p*x", {"p": C}, lambda P: P.p * x),
+        ("coef:x*p", {"p": C}, lambda P: x * P.p),
+        ("coef:p*x+q*y", {"p": C, "q": C}, lambda P: P.p * x + P.q * y),
+        ("coef:p*x**2+q*x+1", {"p": C, "q": C}, lambda P: P.p * x ** 2 + P.q * x + 1),
+        ("coef:x+p*y**3", {"p": C}, lambda P: x + P.p * y ** 3),
+        ("coef:x+y**3*p", {"p": C}, lambda P: x + y ** 3 * P.p),
+        ("coef:x+p*sin(y)", {"p": C}, lambda P: x + P.p * sin(y)),
+        ("coef:x+sin(y)*p", {"p": C}, lambda P: x + sin(y) * P.p),
+        ("coef:x+p*(x*y)", {"p": C}, lambda P: x + P.p * (x * y)),
+        ("coef:x+p*(1/y)", {"p": C}, lambda P: x + P.p * (1.0 / y)),
+        ("coef:x+p*exp(y)", {"p": C}, lambda P: x + P.p * exp(y)),
+        ("coef:x+(p*q)*y**2", {"p": C, "q": C}, lambda P: x + (P.p * P.q) * y ** 2),
+        ("coef:x+p*(q*y**2)", {"p": C, "q": C}, lambda P: x + P.p * (P.q * y ** 2)),
+        ("coef:x+(p-q)*y**2", {"p": C, "q": C}, lambda P: x + (P.p - P.q) * y ** 2),
+        ("coef:x-(p*y**2)", {"p": C}, lambda P: x - P.p * y ** 2),
+        ("coef:-(p*y**2)+x", {"p": C}, lambda P: -(P.p * y ** 2) + x),
+        ("coef:(p*x)**2", {"p": C}, lambda P: (P.p * x) ** 2),
+        ("coef:(p*y**2+x)**2", {"p": C}, lambda P: (P.p * y ** 2 + x) ** 2),
+        ("coef:y**2/p", {"p": C}, lambda P: x + y ** 2 / P.p),
+        ("coef:x/p", {"p": C}, lambda P: x / P.p),
+        ("coef:sum vp[i]*X[i]", {"vp0": C, "vp1": C, "vp2": C}, lambda P: V.VectorExpression([P.vp[i] * X[i] for i in range(min(3, n))]).sum()),
+        ("coef:sum vp[i]*X[i]**2", {"vp0": C, "vp1": C}, lambda P: x + V.VectorExpression([P.vp[i] * X[i] ** 2 for i in range(min(3, n))]).sum()),
+        ("coef:x+vp0*y**3+vp1*sin(y)", {"vp0": C, "vp1": C}, lambda P: x + P.vp[0] * y ** 3 + P.vp[1] * sin(y)),
+        ("coef:LC[p*y**3]", {"p": C}, lambda P: V.LinearCombination(c3, ve(P.p * y ** 3))),
+        ("coef:LC[p*sin]", {"p": C}, lambda P: V.LinearCombination(c3, ve(P.p * sin(y)))),
+        ("coef:dot(ve[p*y**2],Y)", {"p": C}, lambda P: V.DotProduct(ve(P.p * y ** 2), Y)),
+        ("coef:QF(ve[p*y**2])", {"p": C}, lambda P: M.QuadraticForm(ve(P.p * y ** 2), Q)),
+        ("coef:x+p*dot", {"p": C}, lambda P: x + P.p * V.DotProduct(X, Y)),
+        ("coef:x+p*QF", {"p": C}, lambda P: x + P.p * M.QuadraticForm(X, Q)),
+        ("coef:x+p*LC", {"p": C}, lambda P: x + P.p * V.LinearCombination(c3, X)),
+        ("coefdeep:L450", {"p": C}, lambda P: chain(P.p * y ** 3, 450)),
+        ("coefdeep:late450", {"p": C}, lambda P: chain(P.p * sin(y), 450, late=True)),
+        # ---- base of a power
+        ("base:p**2*x", {"p": C}, lambda P: P.p ** 2 * x),
+        ("base:(p+x)**2", {"p": C}, lambda P: (P.p + x) ** 2),
+        ("base:(p*x+q)**2", {"p": C, "q": C}, lambda P: (P.p * x + P.q) ** 2),
+        ("base:p**x", {"p": C}, lambda P: P.p ** x),
+        ("base:p**q*x", {"p": C, "q": E}, lambda P: P.p ** P.q * x),
+        ("base:(p*y**2+x)**q", {"p": C, "q": E}, lambda P: (P.p * y ** 2 + x) ** P.q),
+        # ---- additive term
+        ("add:x+p", {"p": C}, lambda P: x + P.p),
+        ("add:p-y**2", {"p": C}, lambda P: P.p - y ** 2),
+        ("add:sin(y)+p", {"p": C}, lambda P: sin(y) + P.p),
+        ("add:(x+p)*q", {"p": C, "q": C}, lambda P: (x + P.p) * P.q),
+        ("add:x**2+p*x+q", {"p": C, "q": C}, lambda P: x ** 2 + P.p * x + P.q),
+        ("add:(x+p)**q", {"p": C, "q": E}, lambda P: (x + P.p) ** P.q),
+        ("add:LC[x+p]", {"p": C}, lambda P: V.LinearCombination(c3, ve(x + P.p))),
+        # ---- exponent and coefficient together
+        ("mix:q*x**p", {"p": E, "q": C}, lambda P: P.q * x ** P.p),
+        ("mix:(q*x+1)**p", {"p": E, "q": C}, lambda P: (P.q * x + 1.0) ** P.p),
+        ("mix:x**p+q", {"p": E, "q": C}, lambda P: x ** P.p + P.q),
+        ("mix:y+q*x**p", {"p": E, "q": C}, lambda P: y + P.q * x ** P.p),
+        ("mix:vp0*x**vp1+vp2", {"vp0": C, "vp1": E, "vp2": C}, lambda P: P.vp[0] * x ** P.vp[1] + P.vp[2]),
+        ("mix:sin(p)*x**q", {"p": C, "q": E}, lambda P: sin(P.p) * x ** P.q),
+    ]
+    return F
+
+
+def param_histories(rng, roles, full):
+    """histories of one form: [(typed values of the step, first channel, whole-vector set?)]; step 0 holds the
+    values the Parameters are CREATED with (every key), later steps the values that are `set`.
+    Systematic part: every initial value of the role × next values over the whole pool of the role, for each
+    parameter of the form in turn, the first channel cycling; random part: 3-4 steps, values coming back
+    (A → B → A), the same value set again, steps that only set, several parameters changed at one step."""
+    keys = list(roles)
+    out = []
+
+    def defaults():
+        v = {k: typed_value(rng, 1.0) for k in PARAM_KEYS}
+        for k in keys:
+            v[k] = typed_value(rng, rng.choice(PARAM_INIT[roles[k]]))
+        return v
+
+    ci = rng.randint(0, len(PARAM_CHANNELS) - 1)
+    for k in keys:
+        pool = PARAM_POOL[roles[k]]
+        for v0 in PARAM_INIT[roles[k]]:
+            nxt = [v for v in pool if float(v) != float(v0)]
+            if not full:
+                nxt = rng.sample(nxt, 4)
+            for v1 in nxt:
+                first = defaults()
+                first[k] = typed_value(rng, v0)
+                ch0 = PARAM_CHANNELS[ci % (len(PARAM_CHANNELS) - 1)]     # never "none" at the first step
+                ci += 1
+                out.append([(first, ch0, False), ({k: typed_value(rng, v1)}, rng.choice(PARAM_CHANNELS[:-1]), rng.random() < 0.3)])
+    for _ in range(8 if full else 3):
+        h = [(defaults(), rng.choice(PARAM_CHANNELS[:-1]), False)]
+        seen = [dict(h[0][0])]
+        for _ in range(rng.randint(2, 3)):
+            r = rng.random()
+            if r < 0.25 and len(seen) > 1:
+                sets = {k: list(seen[0][k]) for k in keys}          # back to the values of the beginning
+            elif r < 0.35:
+                sets = {k: list(seen[-1][k]) for k in keys if k in seen[-1]} or {keys[0]: typed_value(rng, 1.0)}   # the same values again
+            else:
+                chosen = [k for k in keys if rng.random() < 0.6] or [rng.choice(keys)]
+                sets = {k: typed_value(rng, rng.choice(PARAM_POOL[roles[k]])) for k in chosen}
+            seen.append({**seen[-1], **sets})
+            h.append((sets, rng.choice(PARAM_CHANNELS), rng.random() < 0.3))
+        out.append(h)
+    return out
+
+
+def param_history_cover(rng, full=False):
+    """(tag, form name, roles, history) for every form × its histories"""
+    U = gen.Universe(rng)
+    out = []
+    for name, roles, _ in param_forms(U):
+        deep = "deep" in name.split(":")[0]
+        hs = param_histories(rng, roles, full and not deep)
+        if deep and not full:
+            hs = hs[:: max(1, len(hs) // 8)]
+        for h in hs:
+            out.append(("paramhist:" + name, name, roles, h))
+    return out
+
+
+def _read_channel(e, ch, probs):
+    """one way of asking for the classification of `e`: the bound it claims (a finite degree d, 1 for "linear",
+    2 for "quadratic"), or None when nothing is claimed"""
+    import optyx.analysis as A
+    from optyx import Problem
+
+    if ch == "degree":
+        return e.degree
+    if ch == "is_linear()":
+        return 1 if e.is_linear() else None
+    if ch == "A.is_linear":
+        return 1 if A.is_linear(e) else None
+    if ch == "A.is_quadratic":
+        return 2 if A.is_quadratic(e) else None
+    if ch == "A.compute_degree":
+        return A.compute_degree(e)
+    if ch == "A._compute_degree_iterative":
+        return A._compute_degree_iterative(e)
+    if ch == "problem-objective":       # ONE Problem object over the whole history (the documented re-solve workflow)
+        if "obj" not in probs:
+            probs["obj"] = Problem().minimize(e)
+        return 1 if probs["obj"]._is_linear_problem() else None
+    if ch == "problem-constraint":
+        if "con" not in probs:
+            probs["con"] = Problem().minimize(probs["slack"]).subject_to(e <= 1)
+        pr = probs["con"]
+        if pr._is_linear_problem():
+            return 1
+        return 2 if pr._auto_select_method() == "SLSQP" else None
+    if ch == "fresh-problem":
+        return 1 if Problem().maximize(e)._is_linear_problem() else None
+    if ch == "sub-nodes":
+        prequery(e, choose_pre(e, core.Rng(len(subnodes(e))), 1.0), A._RECURSION_THRESHOLD)
+        return None
+    return None
+
+
+def param_claims(e, first, T, probs):
+    """[(channel, bound)] — the channel `first` is asked first, then every other one"""
+    import optyx.analysis as A
+
+    out = []
+    old = A._RECURSION_THRESHOLD
+    try:
+        A._RECURSION_THRESHOLD = T
+        order = [first] + [c for c in PARAM_CHANNELS if c not in (first, "none", "sub-nodes")]
+        for ch in order:
+            if ch == "none":
+                continue
+            try:
+                with warnings.catch_warnings():
+                    warnings.simplefilter("ignore")
+                    b = _read_channel(e, ch, probs)
+            except Exception as ex:  # noqa: BLE001   (a refusal claims nothing)
+                out.append((ch, f"raise:{type(ex).__name__}"))
+                continue
+            out.append((ch, b))
+    finally:
+        A._RECURSION_THRESHOLD = old
+    return out
+
+
+def judge_param_claims(e, claims, rng):
+    """the smallest claimed bound is judged against the function `e` denotes for the CURRENT parameter values
+    (exact finite differences with the values substituted; numeric ones where the function is not polynomial)"""
+    bounds = sorted({int(b) for _, b in claims if isinstance(b, (int, np.integer)) and not isinstance(b, bool)})
+    if not bounds:
+        return None
+    d = bounds[0]
+    r = degree_oracle(e, d, rng)
+    if r is None or isinstance(r, str):
+        return r
+    r["claimed_by"] = [c for c, b in claims if not isinstance(b, str) and b is not None and int(b) == d]
+    r["degree"] = d
+    return r
+
+
+def run_param_history(name, roles, history, T, rng, U=None, verbose=False):
+    """play one history on the real code; returns (failure dict or None, any finite claim seen?, skipped reasons)"""
+    from optyx import Variable
+
+    U = U or gen.Universe(rng)
+    if getattr(U, "_param_forms", None) is None:
+        U._param_forms = {f[0]: f[2] for f in param_forms(U)}
+    build = U._param_forms[name]
+    P = ParamSet(history[0][0])
+    skipped = []
+    try:
+        with warnings.catch_warnings():
+            warnings.simplefilter("ignore")
+            e = build(P)
+    except Exception as ex:  # noqa: BLE001
+        return None, False, [f"construction raised {type(ex).__name__}"]
+    probs = {"slack": Variable("slack")}
+    claimed = False
+    for si, (sets, first, whole) in enumerate(history):
+        if si > 0:
+            P.apply(sets, whole)
+        now = P.now()
+        # the SAME object (and the same Problem objects) as at the earlier steps
+        objs = [("same object", e, first, probs)]
+        # … and one built now, from fresh Parameter objects holding the current values
+        try:
+            with warnings.catch_warnings():
+                warnings.simplefilter("ignore")
+                e2 = build(ParamSet({k: ["float", v] for k, v in now.items()}))
+            objs.append(("freshly built", e2, first if first != "none" else "degree", {"slack": probs["slack"]}))
+        except Exception as ex:  # noqa: BLE001
+            skipped.append(f"construction raised {type(ex).__name__}")
+        for label, obj, ch, pb in objs:
+            if ch == "none":
+                continue
+            claims = param_claims(obj, ch, T, pb)
+            for c, b in claims:
+                if isinstance(b, str):
+                    skipped.append(f"{c} {b}")
+            if verbose:
+                print(f"  step {si} [{label}] parameters now {({k: now[k] for k in roles})}: " + ", ".join(f"{c}={b}" for c, b in claims))
+            r = judge_param_claims(obj, claims, rng)
+            if isinstance(r, str):
+                skipped.append("oracle:" + r[5:])
+                claimed = True
+            elif r is not None:
+                try:
+                    sx = ser(obj)
+                except Exception:  # noqa: BLE001
+                    sx = None
+                r.update({"what": f"{label}, step {si} of a Parameter.set history: " + r["what"] + " (for the parameter values held now)",
+                          "family": "param-history", "form": name, "roles": roles, "step": si, "object": label,
+                          "parameters_now": {k: now[k] for k in roles},
+                          "history": [{"values" if i == 0 else "set": s, "first": f, "whole_vector_set": w} for i, (s, f, w) in enumerate(history)],
+                          "claims": [[c, b] for c, b in claims], "expr": sx if sx is None or len(sx) < 4000 else sx[:4000] + " …", "T": T})
+                return r, True, skipped
+            elif any(isinstance(b, (int, np.integer)) and not isinstance(b, bool) for _, b in claims):
+                claimed = True
+    return None, claimed, skipped
+
+
+def check_param_histories(cases, rep, rng):
+    """the parameter × history family: oracle only (the Lean syntax has no mutable store for degree: the model
+    classifies a Parameter like the code does, independent of its value)"""
+    U = gen.Universe(rng)
+    for i, (tag, name, roles, history) in enumerate(cases):
+        T = (400, 0, 3)[i % 3] if "deep" not in name.split(":")[0] else rng.choice([400, 400, 0])
+        fail, claimed, skipped = run_param_history(name, roles, history, T, rng, U=U)
+        rep.evaluations += 1
+        key = tag.split(":")[0] + ":" + tag.split(":")[1]
+        rep.histogram[key] = rep.histogram.get(key, 0) + 1
+        for s in skipped:
+            rep.skipped["paramhist:" + s] = rep.skipped.get("paramhist:" + s, 0) + 1
+        if claimed:
+            rep.nontrivial.add(hash((name, repr(history))))
+            rep.histogram["paramhist:finite degree claimed"] = rep.histogram.get("paramhist:finite degree claimed", 0) + 1
+        if fail is not None:
+            fail["tag"] = tag
+            n_fail = sum(1 for f in rep.oracle_failures if f.get("family") == "param-history")
+            if n_fail < 40:      # one input is enough for the verdict; the count goes to the histogram
+                rep.oracle_failures.append(fail)
+            rep.histogram["paramhist:FAILED"] = rep.histogram.get("paramhist:FAILED", 0) + 1
+
+
+def replay_param_history(f) -> bool:
+    history = [(h.get("values", h.get("set")), h["first"], bool(h.get("whole_vector_set"))) for h in f["history"]]
+    print(f"form {f['form']}   threshold {f['T']}   expression: {(f.get('expr') or '')[:300]}")
+    fail, _, skipped = run_param_history(f["form"], f["roles"], history, int(f["T"]), core.Rng(1), U=gen.Universe(core.Rng(0)), verbose=True)
+    if fail is not None:
+        print("  oracle:", {k: fail[k] for k in ("what", "claimed_by", "degree", "parameters_now", "mode") if k in fail})
+    return fail is None
+
+
 # ----------------------------------------------------------------------------- the run
 
 
@@ -1192,6 +1690,9 @@ def run(ctx) -> core.Report:
                            "two MatrixVectorProducts) × every vector-operand position, coefficient magnitudes (0, denormals, ±1e-300 … ±1e16) "
                            "in every coefficient position over high-degree / non-polynomial elements, deep chains around the 400 "
                            "switch and the 500 depth cut-off, seeded random trees biased to the polynomial fragment; "
+                           "Parameters in every position (exponent, coefficient, divisor, base, additive; scalar and VectorParameter "
+                           "elements; shallow, in vector nodes, in deep chains) × histories classify → Parameter.set → classify the "
+                           "same and a fresh object through every channel, judged for the current parameter values; "
                            "thresholds 400 / 0 / 3 / 10^9; non-trivial = distinct expressions with a finite degree")
     cases = list(cell_cover(rng)) + vector_operand_cover(rng) + magnitude_cover(rng) + typed_coef_cover(rng) + shared_cover(rng) + chain_cases(rng, thorough)
     n_rand = 40000 if thorough else 4000
@@ -1203,6 +1704,8 @@ def run(ctx) -> core.Report:
         else:
             cases.append(("randpoly", (lambda U=U, depth=depth, st=rng.getrandbits(48): rand_poly(core.Rng(st), U, depth))))
     check_cases(cases, rep, rng, thorough)
+    # Parameters inside the classified expression × histories of Parameter.set between classifications
+    check_param_histories(param_history_cover(rng, full=thorough), rep, rng)
     return rep
 
 
@@ -1256,6 +1759,11 @@ def search(ctx, rep):
         pool.append(("mismatch", (lambda sx=sx: deser(sx))))
         for v in coefficient_variants(sx):
             pool.append(("mismatch-variant", (lambda v=v: deser(v))))
+    prep = core.Report()
+    # (run() has played the full cross product already when the build / translation broke: other random histories here)
+    check_param_histories(param_history_cover(rng, full=not ctx.get("escalate")), prep, rng)
+    if prep.oracle_failures:
+        return prep.oracle_failures[0]
     pool += [(t, m) for t, m in cell_cover(rng)] + vector_operand_cover(rng) + magnitude_cover(rng) + typed_coef_cover(rng) + shared_cover(rng) + chain_cases(rng, False)
     for i in range(30000):
         U = gen.Universe(rng)
@@ -1304,6 +1812,8 @@ def replay(payload) -> bool:
     import optyx.analysis as A
 
     f = payload["failure"]
+    if f.get("family") == "param-history":
+        return replay_param_history(f)
     if not f.get("expr"):
         print("no serialised expression in the replay file; tag:", f.get("tag"))
         return True
